@@ -48,7 +48,7 @@ orc_target_get_default (void)
   if (envvar != NULL) {
     OrcTarget *const target = orc_target_get_by_name (envvar);
 
-    if (target != NULL)
+    if (target != NULL && target->executable)
       return target;
   }
 
